@@ -14,6 +14,8 @@ from harness import common as cm
 ASSUMPTIONS = [
     "reals, not floats; contraction off",
     "structure (locations, levels, entry points, requested dimensions, cut-off 3) is the enumerated bound; contents symbolic",
+    "label level additionally with symbolic integers (CrossHair): label n < cut-off d <= 64, request in -4..80, two successive requests "
+    "with d <= 32; beyond these ranges nothing is claimed",
     "adequacy of the Displace / Squeeze dimension search is NOT decided symbolically (iterated float expm); it is exercised "
     "with concrete parameters on number states only (cases ideal/...: lost population <= 1e-4, deviation <= 5e-3)",
 ]
@@ -68,6 +70,15 @@ def cases(tier):
                 for n0 in (0, 1):
                     out.append({"id": f"ideal/{op}/{k}/{loc}/n{n0}", "what": "ideal", "op": op, "param": [par.real, par.imag] if
                                 isinstance(par, complex) else [float(par), 0.0], "loc": loc, "n0": n0})
+    # (d) label level with SYMBOLIC integers (engine E2, CrossHair): |n> at cut-off d <= 64, any request in -4..80, and two
+    #     successive requests; plus the reachability twin that must be refuted
+    for fn in ("label_resize_ok", "label_resize_twice_ok"):
+        out.append({"id": f"crosshair/{fn}", "what": "crosshair", "fn": fn})
+    out.append({"id": "crosshair/reachability-twin", "what": "crosshair", "fn": "reachability_twin"})
+    #     automatic dimension for ladder / phase / identity operations with a symbolic highest occupied level n <= 100000
+    out.append({"id": "crosshair/auto_dimension_holds_result", "what": "crosshair", "fn": "auto_dimension_holds_result",
+                "file": "c10_auto_dims.py"})
+    out.append({"id": "crosshair/auto-dimension-reachability-twin", "what": "crosshair", "fn": "reachability_twin", "file": "c10_auto_dims.py"})
     return out
 
 
@@ -144,6 +155,11 @@ def scenario(B, case):
 
     if case["what"] == "ideal":
         return _ideal(B, case)
+    if case["what"] == "crosshair":
+        f = case.get("file", "c10_label_resize.py")
+        if case["fn"] == "reachability_twin":
+            return cm.crosshair_condition(B, f, "reachability_twin", expect="refuted")
+        return cm.crosshair_condition(B, f, case["fn"])
     W = World(B, case["world"])
     h = W.h
     t = W.sub(case["target"])
